@@ -36,13 +36,10 @@ pub fn pin_current(cpu_id_idx: usize) -> bool {
         return false;
     }
 
+    // A pool can have more threads than the affinity mask has CPUs (e.g. under `taskset`
+    // or a container cpuset); panicking here would abort the process from inside rayon's
+    // start handler, so the thread is simply left unpinned.
     if num_available <= cpu_id_idx {
-        if cfg!(debug_assertions) {
-            panic!(
-                "Cannot pin to CPU that does not exist {num_available} available CPUs, \
-                {cpu_id_idx} provided index"
-            );
-        }
         return false;
     }
 
